@@ -61,10 +61,61 @@ def build_helper():
 # cases
 
 def case_line(c):
-    return "%s %d %s %s %d %d %d %d %s %d %s %s %s %s" % (
-        c["id"], c["pin"], c["p1"], c["p2"], c["cap"], c["timeout"], c["poll"],
+    s = "%s %d %s %s %d %s %d %d %s %d %s %s %s %s" % (
+        c["id"], c["pin"], c["p1"], c["p2"], c["cap"], "-" if c["timeout"] is None else c["timeout"], c["poll"],
         c["n1"], c["k1"], c["n2"], c["k2"], ",".join(c["actions"]) or "-",
         c.get("place", "top"), c.get("churn", "none"))
+    if c.get("caps"):
+        s += " caps=" + ",".join("%s:%d" % kv for kv in sorted(c["caps"].items()))
+    if c.get("stdin") is not None:
+        s += " stdin=%d" % c["stdin"]
+    return s
+
+
+def cap_fields():
+    """ProcessCaps field names in declaration order, as regenerated from src/process.rs."""
+    txt = open(os.path.join(common.COQ, "theories", "GenCapture.v")).read()
+    m = re.search(r"Definition all_cap_fields : list cap_field := \[(.*?)\]\.", txt)
+    return [x.strip()[2:] for x in m.group(1).split(";")] if m else []
+
+
+# How each field of ProcessCaps is exercised by section (7) of gen_cases.  A field of the regenerated
+# list that is missing here is reported ("caps field not exercised").
+EXERCISED = {
+    "max_capture_bytes_per_stream": "outputs of cap and cap+1 bytes per stream, once as the smallest and once as the largest byte limit",
+    "default_timeout_ms": "builder without timeout_ms(): child shorter / longer than the default (300..500 ms), far below max_timeout_ms",
+    "max_timeout_ms": "explicit timeouts between default and max, at max, above max (refusal, nothing spawned)",
+    "wait_poll_ms": "distinct small value; results of fast children must not be later than poll + slack; timeouts not before the deadline",
+    "max_stdin_bytes": "differs from the capture limit in both directions (over-limit output must fail, stdin text below/at/above its own cap)",
+    "max_program_bytes": "distinct value; an output of value+1 bytes must still be complete (not confused with the capture limit)",
+    "max_cwd_bytes": "distinct value; output of value+1 bytes complete",
+    "max_args": "distinct value; output of value+1 bytes complete",
+    "max_arg_bytes": "distinct value; output of value+1 bytes complete",
+    "max_total_arg_bytes": "distinct value; output of value+1 bytes complete",
+    "max_env_pairs": "distinct value; output of value+1 bytes complete",
+    "max_env_key_bytes": "distinct value; output of value+1 bytes complete",
+    "max_env_value_bytes": "distinct value; output of value+1 bytes complete",
+    "max_total_env_bytes": "distinct value; output of value+1 bytes complete",
+}
+CAPS_A = {"max_program_bytes": 4001, "max_cwd_bytes": 4002, "max_args": 41, "max_arg_bytes": 203, "max_total_arg_bytes": 2005,
+          "max_env_pairs": 9, "max_env_key_bytes": 65, "max_env_value_bytes": 71, "max_total_env_bytes": 307,
+          "max_stdin_bytes": 10007, "max_capture_bytes_per_stream": 60, "default_timeout_ms": 500, "max_timeout_ms": 3000,
+          "wait_poll_ms": 7}
+CAPS_B = dict(CAPS_A, max_program_bytes=121, max_cwd_bytes=110, max_stdin_bytes=64, max_capture_bytes_per_stream=5000)
+
+
+def effective_timeout(c):
+    """Deadline of the command as the property text has it: the explicit timeout, else the host's default;
+    None = the command must be refused (0 or above max_timeout_ms)."""
+    caps = c.get("caps")
+    if c["timeout"] is not None:
+        t = c["timeout"]
+    else:
+        t = caps["default_timeout_ms"] if caps else 900000
+    mx = caps["max_timeout_ms"] if caps else 3600000
+    if t == 0 or t > mx:
+        return None
+    return t
 
 
 # where run() is evaluated and how its result travels to the place that reads the fields
@@ -229,6 +280,43 @@ def gen_cases(env, searching):
         c = mk(nid[0], "c", "c", 100, 101, "a", 5, "a", 0, "oe", rng=rng, pin=0, poll=5)
         c["place"], c["churn"] = pl, rng.choice(CHURNS)
         cases.append(c)
+    # (7) the host's ProcessCaps x the builder: every field has a value of its own, so that using the wrong
+    # field changes an outcome; optional builder settings unset / below / at / above their cap.
+    def capcase(caps, p1, p2, n1, n2, timeout, shape="oe", dur=0, place="top", stdin=None, code=0):
+        nid[0] += 1
+        c = mk(nid[0], p1, p2, caps["max_capture_bytes_per_stream"], n1, "a", n2, "a", code, shape, rng=rng, pin=0,
+               timeout=timeout, poll=caps["wait_poll_ms"], dur=dur)
+        c["caps"], c["place"], c["churn"], c["stdin"], c["matrix"] = dict(caps), place, "none", stdin, True
+        cases.append(c)
+    for caps in (CAPS_A, CAPS_B):
+        cap = caps["max_capture_bytes_per_stream"]
+        for tmo in (None, 2999):
+            capcase(caps, "c", "c", cap, cap, tmo)
+            capcase(caps, "c", "c", cap + 1, 3, tmo)
+            capcase(caps, "c", "c", 3, cap + 1, tmo)
+            capcase(caps, "n", "c", 0, cap + 1, tmo)
+            capcase(caps, "c", "i", cap + 1, 0, tmo)
+        # an output one byte longer than any OTHER limit of the host is still complete
+        for name, v in sorted(caps.items()):
+            if name != "max_capture_bytes_per_stream" and v + 1 <= cap:
+                if rng.random() < 0.5:
+                    capcase(caps, "c", "c", v + 1, 2, None)
+                else:
+                    capcase(caps, "c", "c", 2, v + 1, None)
+        # stdin text below / at / above max_stdin_bytes (its own cap, whatever the capture limit is)
+        sc = caps["max_stdin_bytes"]
+        for n in ((sc - 1, sc, sc + 1) if sc < 1000 else (cap + 1, sc + 1)):
+            capcase(caps, "c", "c", 5, 5, None, stdin=n)
+    # timeouts: default 500 ms, maximum 3000 ms, poll 7 ms
+    for (tmo, dur, place) in ((None, 1100, "top"), (None, 1100, "fn_direct"), (None, 40, "top"), (60, 480, "top"), (500, 40, "top"),
+                              (800, 650, "top"), (800, 1300, "top"), (3000, 650, "top"), (2999, 40, "fn_local"),
+                              (3001, 0, "top"), (3001, 40, "fn_direct"), (4000000, 0, "top")):
+        capcase(CAPS_A, "c", "c", 10, 10, tmo, shape="sleep-first" if dur else "oe", dur=dur, place=place)
+    if thorough:
+        for (tmo, dur) in ((None, 3300), (3000, 3600), (2000, 1500), (2000, 2600)):
+            capcase(CAPS_A, "c", "c", 10, 10, tmo, shape="sleep-last", dur=dur)
+        slow_poll = dict(CAPS_A, wait_poll_ms=1000)
+        capcase(slow_poll, "c", "c", 10, 10, None, shape="sleep-first", dur=2000)
     if thorough:
         # big transfers through a full pipe: the child blocks until the reader drains or stops
         for cap in (150000, 300000):
@@ -309,6 +397,18 @@ def oracle(c, o):
     bad1, bad2 = cap1 and c["k1"] in "bBT" and c["n1"] > 0, cap2 and c["k2"] in "bBT" and c["n2"] > 0
     pid = field(o, "pid")
     ms = int(field(o, "t") or 0)
+    eff = effective_timeout(c)
+    stdin_refused = c.get("stdin") is not None and c.get("caps") and c["stdin"] > c["caps"]["max_stdin_bytes"]
+    if eff is None or stdin_refused:
+        # the builder asks for more than the host allows: refusal, and nothing may have been started
+        if t[0] == "err" and field(o, "kind") == "spec":
+            if pid != "unknown":
+                return "refused-but-child-started", "the command was refused but the helper ran (%s)" % pid
+            return None, ""
+        return "over-cap-builder-not-refused", "timeout %s / stdin %s exceed the host caps but the run was not refused: %s" % (
+            c["timeout"], c.get("stdin"), " ".join(t[:4]))
+    if t[0] == "err" and field(o, "kind") == "spec":
+        return "unexpected-refusal", "a command within the host caps was refused: " + o
     if pid and pid.startswith("alive"):
         return "child-left-running", "helper pid still exists after run() returned (%s)" % pid
     if t[0] == "crash":
@@ -338,15 +438,19 @@ def oracle(c, o):
             return "wrong-exit-code", "exit_code %s, the child ended with %s" % (code, c["code"])
         if field(o, "success") != ("1" if c["code"] == 0 else "0"):
             return "wrong-success-flag", "success() = %s with exit code %s" % (field(o, "success"), c["code"])
-        if c["dur"] > c["timeout"] + c["poll"] + SLACK_MS:
-            return "ok-past-deadline", "success although the child runs %d ms with timeout %d" % (c["dur"], c["timeout"])
+        if c["dur"] > eff + c["poll"] + SLACK_MS:
+            return "ok-past-deadline", "success although the child runs %d ms and the deadline is %d ms (%s)" % (
+                c["dur"], eff, "explicit" if c["timeout"] is not None else "host default, timeout_ms() not called")
         return None, ""
     if t[0] == "err":
         kind, stream = field(o, "kind"), field(o, "stream")
         if kind == "timeout":
-            if ms < c["timeout"]:
-                return "timeout-before-deadline", "Timeout after %d ms with timeout_ms %d" % (ms, c["timeout"])
-            if c["dur"] + 2500 < c["timeout"]:
+            if ms < eff:
+                return "timeout-before-deadline", "Timeout after %d ms, the deadline is %d ms" % (ms, eff)
+            if c["dur"] - (eff + c["poll"]) >= 500 and ms >= c["dur"] - 30:
+                return "timeout-after-child-finished", ("Timeout reported only after %d ms, when the child (%d ms) had finished by itself: "
+                                                        "it was not stopped at the deadline of %d ms" % (ms, c["dur"], eff))
+            if c["dur"] + 2500 < eff:
                 return None, "inconclusive-timeout"      # the machine stalled for seconds: not judged
             return None, ""
         if kind == "limit":
@@ -369,12 +473,23 @@ def oracle(c, o):
 
 def run_model(env, cases, obs, name):
     """Returns {id: (judged, reached, family)}; the input is sharded over a few processes."""
-    items = [(c, canonical(obs[c["id"]])) for c in cases if c["id"] in obs and canonical(obs[c["id"]])]
+    order = cap_fields()
+    items = []
+    for c in cases:
+        o = canonical(obs[c["id"]]) if c["id"] in obs else None
+        if not o:
+            continue
+        if c.get("stdin") is not None and o.startswith("err kind=spec"):
+            continue          # refusal because of the stdin text: validate's own caps are C15's model, not this one
+        items.append((c, o))
     # identical (config, outcome) pairs are judged once
     uniq = {}
     for c, o in items:
-        k = "%s %s %d %d %d %d %s %d %s %s | %s" % (c["p1"], c["p2"], c["cap"], c["timeout"], c["poll"], c["n1"], c["k1"],
-                                                   c["n2"], c["k2"], c["code"], o)
+        k = "%s %s %d %s %d %d %s %d %s %s" % (c["p1"], c["p2"], c["cap"], "-" if c["timeout"] is None else c["timeout"],
+                                              c["poll"], c["n1"], c["k1"], c["n2"], c["k2"], c["code"])
+        if c.get("caps"):
+            k += " caps=" + ",".join(str(c["caps"][f]) for f in order)
+        k += " | " + o
         uniq.setdefault(k, []).append(c["id"])
     keys = sorted(uniq, key=lambda k: -(int(k.split()[5]) + int(k.split()[7])))
     nsh = 8
@@ -398,11 +513,12 @@ def run_model(env, cases, obs, name):
             errs.append((e or b"").decode("utf-8", "replace")[-400:])
             continue
         for l in open(outp).read().splitlines():
-            m = re.match(r"(\d+) judged=(\d) reached=(\d) observed=\[(.*?)\] family=\[(.*)\]", l)
+            m = re.match(r"(\d+) judged=(\d) reached=(\d) observed=\[(.*?)\] family=\[(.*?)\](?: timeout=(\d+) cap=(\d+) poll=(\d+))?", l)
             if m:
                 k = sh[int(m.group(1))]
+                eff = (int(m.group(6)), int(m.group(7)), int(m.group(8))) if m.group(6) else None
                 for cid in uniq[k]:
-                    res[cid] = (m.group(2) == "1", m.group(3) == "1", m.group(5))
+                    res[cid] = (m.group(2) == "1", m.group(3) == "1", m.group(5), eff)
     return res, errs
 
 
@@ -476,7 +592,24 @@ def correspond(env, searching=False, model=True):
         if len(samples) < 5 and not key and (c["shape"] in ("split", "sleep-mid") or c.get("place", "top") != "top") \
                 and sum(1 for s in samples if (" top " in s["case"]) == (c.get("place", "top") == "top")) < 3:
             samples.append({"case": case_line(c), "observed": o})
-    extra = {"outcome_histogram": hist, "impl_seconds": round(t_impl, 1), "inconclusive_cases": inconclusive,
+    # wait_poll_ms: results of fast children must not arrive later than the poll interval (+ slack), judged on the majority
+    fast = [(c, int(field(obs[c["id"]], "t") or 0)) for c in cases
+            if c.get("matrix") and c["dur"] <= 50 and obs.get(c["id"], "").startswith("ok ")]
+    late = [(c, ms) for c, ms in fast if ms > c["dur"] + c["poll"] + SLACK_MS]
+    if len(fast) >= 6 and len(late) * 2 > len(fast) and "result-later-than-poll-interval" not in seen_fail:
+        c, ms = late[0]
+        failures.append({"key": "result-later-than-poll-interval", "case": case_line(c), "observed": obs[c["id"]], "config": c,
+                         "what": "%d of %d fast children were reported only after more than child time + wait_poll_ms (%d) + %d ms"
+                                 % (len(late), len(fast), c["poll"], SLACK_MS)})
+    # every field of the regenerated ProcessCaps list must be in the exercise table
+    fields = cap_fields()
+    for f in fields:
+        if f not in EXERCISED:
+            disagreements.append({"stream": "capture-caps-matrix", "error": "ProcessCaps field `%s` is not exercised by the caps x builder matrix" % f})
+    for f in EXERCISED:
+        if f not in fields:
+            disagreements.append({"stream": "capture-caps-matrix", "error": "ProcessCaps no longer has the field `%s` the matrix exercises" % f})
+    extra = {"outcome_histogram": hist, "caps_fields": fields, "caps_matrix_cases": sum(1 for c in cases if c.get("matrix")), "impl_seconds": round(t_impl, 1), "inconclusive_cases": inconclusive,
              "join_recheck_mode_in_source": recheck_mode(), "cases_pinned": sum(1 for c in cases if c["pin"]),
              "placement_cases": sum(1 for c in cases if c.get("place", "top") != "top"),
              "release_profile_cases": len(rel_cases),
@@ -488,8 +621,16 @@ def correspond(env, searching=False, model=True):
         for e in errs:
             disagreements.append({"stream": "capture-outcomes", "error": "nsmodel capture failed: " + e})
         unjudged = unreached = 0
-        for cid, (judged, reached, fam) in sorted(res.items(), key=lambda kv: (kv[0].startswith("r"), int(kv[0].lstrip("r")))):
+        for cid, (judged, reached, fam, eff) in sorted(res.items(), key=lambda kv: (kv[0].startswith("r"), int(kv[0].lstrip("r")))):
             c = by_id[cid]
+            # the configuration the extracted mk_cfg derives from caps + builder must be the one the oracle assumed
+            if eff is not None and c.get("caps") and eff != (effective_timeout(c), c["caps"]["max_capture_bytes_per_stream"],
+                                                           c["caps"]["wait_poll_ms"]):
+                if len(disagreements) < 5:
+                    disagreements.append({"stream": "capture-host-config", "case": case_line(c),
+                                          "model": "timeout/cap/poll = %s" % (eff,),
+                                          "impl": "expected %s" % ((effective_timeout(c), c["caps"]["max_capture_bytes_per_stream"],
+                                                                   c["caps"]["wait_poll_ms"]),)})
             if not judged:
                 unjudged += 1
                 if len(disagreements) < 5:
@@ -512,7 +653,8 @@ def correspond(env, searching=False, model=True):
                 "around the child's duration, poll 1..50 ms, each case unpinned and pinned to one CPU; run() evaluated at top level / "
                 "returned from functions directly, via a local, inside arrays, through nested calls, from loops, fields read after "
                 "calls / loops / large temporaries / a second run() and read twice, in the debug (poisoning) and release profiles; "
-                "non-trivial = distinct case "
+                "the host's ProcessCaps x builder matrix (every field of the regenerated field list with a value of its own; timeout unset / "
+                "below / between default and max / at / above max; stdin text below / at / above its cap); non-trivial = distinct case "
                 "with at least one captured stream; oracle = complete-and-exact or a justified error, Timeout only after the "
                 "deadline, helper pid gone; every observed outcome judged by the extracted outcome_ok and searched in the "
                 "outcomes of the extracted model under a family of schedules",
@@ -538,7 +680,7 @@ def replay(env, payload):
         acts = [] if t[11] == "-" else t[11].split(",")
         place, churn = (t[12], t[13]) if len(t) > 13 else ("top", "none")
         code = "null" if "A" in acts else int([a for a in acts if a.startswith("x")][-1][1:])
-        cfg = {"id": "0", "pin": int(t[1]), "p1": t[2], "p2": t[3], "cap": int(t[4]), "timeout": int(t[5]), "poll": int(t[6]),
+        cfg = {"id": "0", "pin": int(t[1]), "p1": t[2], "p2": t[3], "cap": int(t[4]), "timeout": None if t[5] == "-" else int(t[5]), "poll": int(t[6]),
                "n1": int(t[7]), "k1": t[8], "n2": int(t[9]), "k2": t[10], "code": code, "actions": acts,
                "dur": sum(int(a[1:]) for a in acts if a.startswith("s")), "shape": "replay", "place": place, "churn": churn}
     release = case.get("profile") == "release" or cfg.get("profile") == "release"
